@@ -5,7 +5,7 @@ from pyvc import terms as t
 from pyvc.values import *  # noqa
 from pyvc import ghost
 
-ROUNDTRIP = ['Padded', 'Aligned', 'FixedSized', 'Prefixed', 'Const', 'Flag', 'Bytes', 'GreedyBytes']
+ROUNDTRIP = ['Padded', 'Aligned', 'FixedSized', 'Prefixed', 'Const', 'Flag', 'Bytes', 'GreedyBytes', 'BytesInteger', 'BitsInteger']
 SIZED = ['Padded', 'Aligned', 'FixedSized', 'Prefixed', 'Const', 'Flag', 'Bytes', 'BytesInteger', 'BitsInteger', 'FormatField']
 CANONICAL = []
 
@@ -60,3 +60,7 @@ def default_hints(eng, st, args):
 
 for _c in set(ROUNDTRIP + SIZED + CANONICAL + ['FormatField', 'BytesInteger', 'BitsInteger', 'VarInt', 'ZigZag']):
     ghost.HINTS[_c] = default_hints
+from . import intlemmas as _il  # noqa
+ghost.HINTS['BytesInteger'] = _il.bytesinteger_hints
+ghost.HINTS['BitsInteger'] = _il.bitsinteger_hints
+DOMAIN['BitsInteger'] = _il.bitsinteger_domain
